@@ -173,6 +173,7 @@ def rules(ck, P):
     mvt.table_fidelity(ck, P)
     mvt.pbf_rules(ck, P)
     mvt.feature_write_rule(ck, P)
+    mvt.vtlp_rules(ck, P)
 
 
 def mutants(P):
